@@ -181,7 +181,7 @@ def check_program(m, mod, res, case_base, icount):
     for k in range(3):
         fresh = f"zq_{k}_nowhere"
         assert fresh not in m["src"]
-        for sel, what in ((f"f > {fresh}", "fresh variable"), (f"f({fresh}) > p", "fresh context variable"), (f"f > #foo{k}", "unknown meta-variable"), (f"f > #value.z{k}", "unknown (dotted) meta-variable"), (f"f(#enter.q{k}) > #exit", "unknown (dotted) meta-variable as context"), (f"f > #exits{k}", "unknown meta-variable extending a valid one"), (f"nosuch_fn_{k} > x", "unresolvable function"), (f"f > nosuch_fn_{k} > x", "unresolvable inner function")):
+        for sel, what in ((f"f > {fresh}", "fresh variable"), (f"f({fresh}) > p", "fresh context variable"), (f"f > #foo{k}", "unknown meta-variable"), (f"f > #value.z{k}", "unknown (dotted) meta-variable"), (f"f(#enter.q{k}) > #exit", "unknown (dotted) meta-variable as context"), (f"f > #exits{k}", "unknown meta-variable extending a valid one"), (f"f > #loop_zq{k}", "loop meta-variable of a name that is no loop variable"), (f"f > #endloop_zq{k}", "loop meta-variable of a name that is no loop variable"), (f"nosuch_fn_{k} > x", "unresolvable function"), (f"f > nosuch_fn_{k} > x", "unresolvable inner function")):
             if sel.endswith("> p") and "p" not in m["params"]:
                 continue
             res.evaluations += 1
